@@ -739,7 +739,108 @@ def status_never_aborts(ctx, rule):
                      repo.norm(bad[0])[:80], bad[1], bad[1]), bad[0] if bad else fn)
 
 
+
+def sort_key_homogeneous(ctx, rule):
+    """Decisions are sorted by a list of tuples, one per path element.  Python compares tuples element-wise, so the FIRST
+    element of the tuple must have one type whatever the path element is: paths mix list indices (ints, also dict keys
+    that look like ints) with dict keys (strings).  The code wraps an index as ('', -i) so that a string always comes
+    first; a tuple that starts with the int itself makes sorted() raise TypeError for a dict holding both kinds of keys."""
+    repo = ctx.repo
+    fn = repo.func(mf.DEC + ':_sort_key')
+    g = CFG(fn)
+    apps = [c for c in calls_in(fn) if isinstance(c.func, ast.Attribute) and c.func.attr == 'append' and c.args]
+    if not apps:
+        raise AnalysisError('_sort_key: no append of key tuples found')
+
+    def kind(e, guards):
+        if isinstance(e, ast.Constant):
+            return type(e.value).__name__
+        if isinstance(e, ast.UnaryOp) and isinstance(e.op, ast.USub):
+            return 'int'
+        if isinstance(e, ast.Name):
+            for t, pol in guards:
+                if isinstance(t, ast.Call) and dotted(t.func) == 'isinstance' and dotted(t.args[0]) == e.id:
+                    tn = ast.unparse(t.args[1])
+                    if tn == 'int':
+                        return 'int' if pol else 'str'
+                    if tn == 'str':
+                        return 'str' if pol else 'int'
+            return '?'
+        return '?'
+    firsts = []
+    for c in apps:
+        st = repo.stmt_of(c)
+        guards = list(cond_guards(g, st))
+        arg = c.args[0]
+        alts = [(arg, guards)]
+        if isinstance(arg, ast.IfExp):
+            alts = [(arg.body, guards + [(arg.test, True)]), (arg.orelse, guards + [(arg.test, False)])]
+        for a, gs in alts:
+            if isinstance(a, ast.Tuple) and a.elts:
+                firsts.append((kind(a.elts[0], gs), a))
+            else:
+                firsts.append(('?', a))
+    kinds = sorted({k for k, a in firsts})
+    ok = kinds == ['str']
+    bad = next((a for k, a in firsts if k != 'str'), None)
+    ctx.inst(rule, mf.DEC + ':_sort_key', 'first tuple elements: %s' % [(k, ast.unparse(a)) for k, a in firsts], ok,
+             'every key tuple starts with a string: index tuples and key tuples always compare' if ok else
+             'a key tuple starts with a non-string (%s): a dict holding an integer-looking key ("1", "2020") next to an ordinary key makes the '
+             'sort compare int with str -> TypeError in validated(), the merge aborts' % (ast.unparse(bad) if bad is not None else '?'), bad if bad is not None else fn)
+
+
+def boundaries_match_consumption(ctx, rule):
+    """Sibling tables: count_consumed_symbols says how many base items an entry consumes (addrange 0, removerange length,
+    patch 1); get_section_boundaries must open a boundary at the key and close one after the consumed items for every op
+    that consumes any.  A missing end boundary leaves the other side's longer removerange unsplit, and the P/R arm of
+    _merge_lists then fails its `length == 1` assertion."""
+    repo = ctx.repo
+    consts = mf.diffop_consts(repo)
+    cc = repo.func('nbdime.diff_utils:count_consumed_symbols')
+    consumed = {}
+    for n in walk_no_nested(cc):
+        if isinstance(n, ast.If):
+            for test, body, nd in if_chain(n)[0]:
+                ce = compare_eq_const(test)
+                opv = None
+                if isinstance(test, ast.Compare) and len(test.ops) == 1:
+                    d = dotted(test.comparators[0])
+                    opv = consts.get(d)
+                for st in body:
+                    if isinstance(st, ast.Return) and isinstance(st.value, ast.Tuple) and opv:
+                        consumed[opv] = not (isinstance(st.value.elts[0], ast.Constant) and st.value.elts[0].value == 0)
+            break
+    if len(consumed) < 3:
+        raise AnalysisError('count_consumed_symbols: op arms not found (%s)' % consumed)
+    gb = repo.func('nbdime.merging.chunks:get_section_boundaries')
+    loop = [n for n in walk_no_nested(gb) if isinstance(n, ast.For)]
+    if not loop:
+        raise AnalysisError('get_section_boundaries: loop over the diff not found')
+    evar = loop[0].target.id
+    for opv, uses_base in sorted(consumed.items()):
+        ev = Evaluator({evar: AbstractEntry(opv)}, consts)
+        adds = []
+
+        def walk(body):
+            for st in body:
+                if isinstance(st, ast.If):
+                    for idx_, b in reachable_arms(ev, st):
+                        walk(b)
+                else:
+                    for c in calls_in(st):
+                        if isinstance(c.func, ast.Attribute) and c.func.attr == 'add' and dotted(c.func.value) == 'boundaries':
+                            adds.append(c)
+        walk(loop[0].body)
+        need = 2 if uses_base else 1
+        ok = len(adds) >= need
+        ctx.inst(rule, 'nbdime.merging.chunks:get_section_boundaries', 'op %s: %d boundary insertion(s) reachable, consumes base items: %s' % (opv, len(adds), uses_base), ok,
+                 'start%s boundary recorded' % (' and end' if uses_base else '') if ok else
+                 'an entry of op %s consumes base items (count_consumed_symbols) but only its start is recorded as a section boundary: the other side\'s '
+                 'longer removerange is not split after it and the patch-vs-remove arm of _merge_lists aborts on its length assertion' % opv, gb)
+
 def run(ctx):
+    ctx.rule('R03.15', 'decision sort keys are comparable for every mix of path elements: each key tuple starts with a string', floor=1)
+    ctx.rule('R03.16', 'section boundaries agree with the consumed-symbol table: every op that consumes base items closes a boundary after them', floor=3)
     ctx.rule('R03.14', 'fields read from a diff entry exist for every op that the surrounding op tests still allow (field table from the op_* constructors)', floor=10)
     ctx.rule('R03.13', 'name binding: every global name a function refers to is bound at module level or builtin, and every local is assigned on every path before it is read', floor=6)
     ctx.rule('R03.12', 'every exactly resolved call binds against its callee\'s signature (no missing/unknown/surplus argument on any arm)', floor=4)
@@ -755,3 +856,5 @@ def run(ctx):
     name_binding(ctx, 'R03.13', ['nbdime.merging.', 'nbdime.prettyprint'])
     from ..opfields import check_op_fields
     check_op_fields(ctx, 'R03.14', ['nbdime.merging.'])
+    sort_key_homogeneous(ctx, 'R03.15')
+    boundaries_match_consumption(ctx, 'R03.16')
